@@ -7,8 +7,8 @@ func Registry() []*Spec {
 
 	// ---- strict JSON front-ends: C01 (language), C06 (no panic), C09 (positions)
 	direct := Spec{Name: "VerifJSON_Direct", Pkg: "oj",
-		Quick: map[string]int{"N": 3}, Thorough: map[string]int{"N": 5},
-		Covers: []string{"accepted", "rejected", "incomplete"}, UnitDepth: 3,
+		Quick: map[string]int{"N": 4}, Thorough: map[string]int{"N": 5},
+		Covers: []string{"accepted", "rejected", "incomplete"}, UnitDepth: 4,
 		Note: "every byte string of length <= N through oj.Parser.Parse, Parser.ParseReader, Validator{OnlyOne}, Tokenizer{OnlyOne}, gen.Parser.Parse vs the RFC 8259 reference recogniser"}
 	for _, pa := range []struct {
 		prop    string
@@ -71,5 +71,22 @@ func Registry() []*Spec {
 		Quick: map[string]int{"LEAFKINDS": 4}, Thorough: map[string]int{"LEAFKINDS": 6},
 		Covers: []string{"match", "nomatch"}, UnitDepth: 3,
 		Note: "alt.Match(fingerprint, target) vs the reference on the same tree space"})
+	// ---- C04: JSON writers
+	add(Spec{Property: "C04", Name: "VerifC04_String", Pkg: "",
+		Quick: map[string]int{"N": 3}, Thorough: map[string]int{"N": 4},
+		Covers: []string{"escaped", "plain"}, UnitDepth: 3,
+		Note: "ojg.AppendJSONString for every string of <= N bytes, HTML-safe on and off: output is one JSON string (reference decoder), decodes to the input with invalid UTF-8 replaced by U+FFFD, no raw < > & when HTML-safe, U+2028/9 escaped"})
+	add(Spec{Property: "C04", Name: "VerifC04_Tree", Pkg: "asm",
+		Quick: map[string]int{}, Thorough: map[string]int{"BIGINT": 1, "SLEN": 2, "KLEN": 2, "HTML": 1},
+		Covers: []string{"done"}, UnitDepth: 6,
+		Note: "oj.Writer.JSON on 10 tree shapes (depth <= 2) with leaves nil / symbolic bool / symbolic int64 (AppendInt contract stub) / symbolic string <= 2 bytes / 4 concrete floats, symbolic keys <= 2 bytes; Sort, OmitNil, OmitEmpty, HTMLUnsafe x {tight, Indent 2, Tab, symbolic Indent 1..70}: output decodes with the reference decoder to the input minus omitted members"})
+	add(Spec{Property: "C04", Name: "VerifC04_Stream", Pkg: "asm",
+		Quick: map[string]int{}, Thorough: map[string]int{"SLEN": 2, "KLEN": 2, "OMIT": 1},
+		Covers: []string{"flushed-midway", "single-write"}, UnitDepth: 6,
+		Note: "oj.Writer.Write into a recording io.Writer with symbolic WriteLimit in [1,48] vs MustJSON: identical bytes"})
+	add(Spec{Property: "C04", Name: "VerifC04_Sort", Pkg: "asm",
+		Quick: map[string]int{}, Thorough: map[string]int{},
+		Covers: []string{"done"}, UnitDepth: 3,
+		Note: "Sort: three distinct symbolic keys (<= 2 bytes) in every map iteration order give the same text, keys ascending"})
 	return r
 }
